@@ -137,11 +137,11 @@ def run(ctx, only=None):
         ctx.outcome(k, v)
     for s in obs['samples']:
         ctx.sample(s)
-    if not only and obs['calls'] < 10 * len(cells):
-        raise HarnessError(f'C05 exploration collapsed: {obs["calls"]} calls')
     for f in obs['failures']:
         ctx.violation(f'{f["cell"]}|{f["client"]}|{f["kind"]}', f'{f["cell"]} {f["client"]} assignment={f["assignment"]}: '
                       f'{f["kind"]}: {f["detail"]}', dict(cells=[f['cell']]))
+    if not only and obs['calls'] < 10 * len(cells) and not ctx.violations:
+        raise HarnessError(f'C05 exploration collapsed: {obs["calls"]} calls')
     ctx.extra['bound'] = 'all 3^n assignments for n<=5 parameters; singles + all ordered pairs of 18 kinds; dependency-package requests'
 
 
